@@ -25,7 +25,7 @@ if not os.path.exists(src):
     src = "/verif/seeded/%s-%s" % (prop, n)  # already archived: re-validate from the archive
 patch = os.path.join(src, "patch.diff")
 demo = os.path.join(src, "demo.rs")
-VW = "/tmp/seedverify"
+VW = os.environ.get("SEEDVW", "/tmp/seedverify")
 ENV = dict(os.environ, CARGO_NET_OFFLINE="true", CARGO_TARGET_DIR=VW + "/target")
 
 
